@@ -599,7 +599,10 @@ class ProcessingItem(ProcessingItemBase):
         if self.field_name_condition_negation:
             field_name_cond_result = not field_name_cond_result
 
-        return detection_item_cond_result and field_name_cond_result
+        # An item without conditions always applies, like for rule conditions
+        return (not self.detection_item_conditions or detection_item_cond_result) and (
+            not self.field_name_conditions or field_name_cond_result
+        )
 
     def match_field_name(self, field: str | None) -> bool:
         """
@@ -621,7 +624,7 @@ class ProcessingItem(ProcessingItemBase):
         if self.field_name_condition_negation:
             field_name_cond_result = not field_name_cond_result
 
-        return field_name_cond_result
+        return not self.field_name_conditions or field_name_cond_result
 
     def match_field_in_value(self, value: SigmaType) -> bool:
         """
@@ -645,7 +648,7 @@ class ProcessingItem(ProcessingItemBase):
             if self.field_name_condition_negation:
                 field_name_cond_result = not field_name_cond_result
 
-            return field_name_cond_result
+            return not self.field_name_conditions or field_name_cond_result
         else:
             return False
 
